@@ -18,15 +18,16 @@ import (
 // SIGKILL ("kill"); afterwards the listed file surgery is applied to the stopped directory. After the last session
 // the server is started once more. Every start is followed by an observation (or "refused to start").
 type Step struct {
-	Op   string  `json:"op"` // write | sync | pipe | delpipe | drop (the partition is truncated away completely) | fwdpipe (the pipe "pf" from partition 0 to the last partition) | round (flush; write Ts to partition 0, which stays buffered; wait until that pipe has forwarded what is flushed; flush the destination)
+	Op   string  `json:"op"` // write | sync | pipe | delpipe | failcreate (a write that creates a partition while the tag index can not be saved) | drop (the partition is truncated away completely) | fwdpipe (the pipe "pf" from partition 0 to the last partition) | round (flush; write Ts to partition 0, which stays buffered; wait until that pipe has forwarded what is flushed; flush the destination)
 	Part int     `json:"part,omitempty"`
 	Ts   []int64 `json:"ts,omitempty"`
 	Name string  `json:"name,omitempty"`
 }
 
 type Surgery struct {
-	Kind string `json:"kind"`        // tindex-torn | drop-window | progress-torn | cindex-drop | cindex-stale | cindex-torn
-	K    int    `json:"k,omitempty"` // torn: keep K per mille of the file (always a proper prefix)
+	Name string `json:"name,omitempty"` // progress-torn: the pipe
+	Kind string `json:"kind"`           // tindex-torn | drop-window | progress-torn | tidx-drop | tidx-short | tidx-zero | tindex-damaged | pipes-damaged | record-removed | cindex-drop | cindex-stale | cindex-torn
+	K    int    `json:"k,omitempty"`    // torn: keep K per mille of the file (always a proper prefix)
 	Part int    `json:"part,omitempty"`
 }
 
@@ -45,6 +46,10 @@ type Scenario struct {
 	NParts   int       `json:"nparts"`
 	Sessions []Session `json:"sessions"`
 	Range    [2]int64  `json:"range"` // the time-range probe asked of every partition after every start
+	// Ensure (fwd scenarios): the forwarding pipe is not created by a step but configured (PipesConfig.EnsureAtStart): every
+	// start ensures it
+	Ensure bool   `json:"ensure,omitempty"`
+	Pipe   string `json:"pipe,omitempty"` // fwd scenarios: the name of the forwarding pipe (default "pf")
 }
 
 type Obs struct {
@@ -59,10 +64,28 @@ type Obs struct {
 
 const fwdPipe = "pf"
 
+// fwdName: the name of the scenario's forwarding pipe: "pf", or "s" - the name whose progress file pipe<name>.dat is
+// pipes.dat, the file the pipe definitions used to be kept in
+func (sc *Scenario) fwdName() string {
+	if sc.Pipe != "" {
+		return sc.Pipe
+	}
+	return fwdPipe
+}
+
+// registryFile: the file of the pipe definitions (registry.dat; pipes.dat for a server that keeps them there)
+func registryFile(dir string) string {
+	fn := filepath.Join(dir, "pipes", "registry.dat")
+	if _, err := os.Stat(fn); err == nil {
+		return fn
+	}
+	return filepath.Join(dir, "pipes", "pipes.dat")
+}
+
 // tags of partition i; in a "fwd" scenario the last partition is the destination of the pipe "pf"
 func (sc *Scenario) tags(i int) string {
 	if sc.Kind == "fwd" && i == sc.NParts-1 {
-		return "logrange.pipe=" + fwdPipe
+		return "logrange.pipe=" + sc.fwdName()
 	}
 	return fmt.Sprintf("app=c07,p=%d", i)
 }
@@ -182,10 +205,60 @@ func applySurgery(dir string, s Surgery, saved map[string][]byte, tr *trace) err
 			}
 		}
 		return nil
+	case "tidx-drop", "tidx-short", "tidx-zero":
+		// the memory-mapped tree files of the time index (cindex/*.tidx) missing / cut to half / zeroed while cindex.dat, which
+		// refers to them, is intact: kernel write-back after a crash can leave any of it. The model has no tree: nothing
+		// observable may change (positions are found by a scan until the index is rebuilt)
+		fns, _ := filepath.Glob(filepath.Join(dir, "cindex", "*.tidx"))
+		for _, fn := range fns {
+			switch s.Kind {
+			case "tidx-drop":
+				if err := os.Remove(fn); err != nil {
+					return err
+				}
+			case "tidx-short":
+				fi, err := os.Stat(fn)
+				if err != nil {
+					return err
+				}
+				if err := os.Truncate(fn, fi.Size()/2); err != nil {
+					return err
+				}
+			default:
+				fi, err := os.Stat(fn)
+				if err != nil {
+					return err
+				}
+				if err := ioutil.WriteFile(fn, make([]byte, fi.Size()), 0640); err != nil {
+					return err
+				}
+			}
+		}
+		return nil
+	case "tindex-damaged": // not crash-shaped: the file cut in place from outside; the loader has to refuse
+		return tear(tdat)
+	case "pipes-damaged":
+		return tear(registryFile(dir))
+	case "record-removed": // not crash-shaped: a record taken out of tindex.dat, the partition's data stays: the loader has to refuse
+		data, err := ioutil.ReadFile(tdat)
+		if err != nil {
+			return nil
+		}
+		var m map[string]json.RawMessage
+		if err := json.Unmarshal(data, &m); err != nil {
+			return nil
+		}
+		for k := range m {
+			if bytes.Contains([]byte(k), []byte(fmt.Sprintf("p=%d", s.Part))) {
+				delete(m, k)
+			}
+		}
+		out, _ := json.Marshal(m)
+		return ioutil.WriteFile(tdat, out, 0640)
 	case "progress-torn":
 		// a crash inside the in-place rewrite of the progress file of the forwarding pipe (pipes/pipe<name>.dat is written
 		// by ioutil.WriteFile after every batch): any proper prefix of it, the empty file included
-		return tear(filepath.Join(dir, "pipes", "pipe"+fwdPipe+".dat"))
+		return tear(filepath.Join(dir, "pipes", "pipe"+s.Name+".dat"))
 	case "cindex-drop":
 		err := os.Remove(cdat)
 		if os.IsNotExist(err) {
@@ -224,9 +297,20 @@ func runScenario(sc *Scenario) (*trace, error) {
 	tr := &trace{}
 	saved := map[string][]byte{}
 	gaveUp, rangeGaveUp := false, false
+	ghosts := 0
 	skipped, pendingAtTear, lastRound, positionLost := 0, 0, 0, false // the forwarding pipe: see the "round" step
 	start := func(blind bool) (*child, error) {
-		c, started, msg, err := startChild(dir, 600000)
+		var c *child
+		var started bool
+		var msg string
+		var err error
+		if sc.Kind == "real" {
+			c, started, msg, err = startRealChild(dir)
+		} else if sc.Ensure {
+			c, started, msg, err = startEnsureChild(dir, 600000, sc.fwdName())
+		} else {
+			c, started, msg, err = startChild(dir, 600000)
+		}
 		if err != nil {
 			return nil, err
 		}
@@ -242,6 +326,20 @@ func runScenario(sc *Scenario) (*trace, error) {
 		if err != nil {
 			c.kill()
 			return nil, err
+		}
+		if sc.Ensure && len(tr.obs) == 0 {
+			// the configured pipe is created by the first Init; the model creates it as the first step of the first session:
+			// it is taken out of the very first observation (every later start has to show it)
+			var ps []string
+			for _, n := range o.Pipes {
+				if n != sc.fwdName() {
+					ps = append(ps, n)
+				}
+			}
+			if len(ps) == len(o.Pipes) {
+				tr.errs = append(tr.errs, "configured-pipe-missing-at-first-start")
+			}
+			o.Pipes = ps
 		}
 		tr.obs = append(tr.obs, o)
 		return c, nil
@@ -265,12 +363,22 @@ func runScenario(sc *Scenario) (*trace, error) {
 				cmd = Cmd{Op: "pipe", Name: st.Name}
 			case "delpipe":
 				cmd = Cmd{Op: "delpipe", Name: st.Name}
+			case "failcreate":
+				// a write to tags nobody has seen while the tag index can not be saved (the file size limit lies inside the
+				// record the index grows by): the write has to fail, the partition must not exist
+				size := 0
+				if data, err := ioutil.ReadFile(filepath.Join(dir, "tindex", "tindex.dat")); err == nil {
+					size = len(data)
+				}
+				soft := int64(size + 10)
+				ghosts++
+				cmd = Cmd{Op: "write", Tags: fmt.Sprintf("app=c07,ghost=f%d", ghosts), Ts: []int64{1}, Soft: &soft}
 			case "drop":
 				cmd = Cmd{Op: "drop", Tags: sc.tags(st.Part)}
 			case "fwdpipe":
-				cmd = Cmd{Op: "pipe", Name: fwdPipe, Cond: "app=c07 AND p=0"}
+				cmd = Cmd{Op: "pipe", Name: sc.fwdName(), Cond: "app=c07 AND p=0"}
 			case "round":
-				cmd = Cmd{Op: "round", Name: fwdPipe, Tags: sc.tags(0), Ts: st.Ts, Dest: sc.tags(sc.NParts - 1), Skip: skipped}
+				cmd = Cmd{Op: "round", Name: sc.fwdName(), Tags: sc.tags(0), Ts: st.Ts, Dest: sc.tags(sc.NParts - 1), Skip: skipped}
 				if positionLost {
 					// the pipe has no position: it takes the start of this write, i.e. it passes over what the last round
 					// of the session before the crash left unforwarded
@@ -300,6 +408,9 @@ func runScenario(sc *Scenario) (*trace, error) {
 			if err != nil {
 				c.kill()
 				return nil, fmt.Errorf("session %d: %v", si, err)
+			}
+			if st.Op == "failcreate" && (a.Short || a.Count > 0) {
+				tr.errs = append(tr.errs, "index-save-failed-write-acknowledged")
 			}
 			if st.Op == "round" {
 				switch {
@@ -358,7 +469,7 @@ func runScenario(sc *Scenario) (*trace, error) {
 			// pipes.dat holds the list the shutdown is about to write again (the definitions are saved when they change);
 			// a directory that never had a pipe gets "[]"
 			size := 2
-			if data, err := ioutil.ReadFile(filepath.Join(dir, "pipes", "pipes.dat")); err == nil && len(data) > 0 {
+			if data, err := ioutil.ReadFile(registryFile(dir)); err == nil && len(data) > 0 {
 				size = len(data)
 			}
 			how, err := c.crashStop(int64(len(tornPrefix(make([]byte, size), ss.EndK))))
@@ -385,7 +496,7 @@ func runScenario(sc *Scenario) (*trace, error) {
 		}
 		for _, sg := range ss.Surgery {
 			if sg.Kind == "progress-torn" {
-				if _, err := os.Stat(filepath.Join(dir, "pipes", "pipe"+fwdPipe+".dat")); err == nil {
+				if _, err := os.Stat(filepath.Join(dir, "pipes", "pipe"+sc.fwdName()+".dat")); err == nil {
 					positionLost, pendingAtTear = true, lastRound
 				}
 			}
